@@ -53,6 +53,19 @@ def make_form(kind, text, fl, mode):
     return INVALID[fl % len(INVALID)](), 'O'
 
 
+# the encoding of unicode-mode objects: what a pattern means does not depend on it (the scripted transport hands over text, so the
+# attribute only reaches the coercion code); rotated by the stages below
+UENC = ['utf-8']
+UENCS = ['utf-8', 'utf-8', 'latin-1', 'ascii', 'utf-16', 'cp500', 'utf-32', 'shift_jis']
+
+
+def scripted(script, mode, clock):
+    p = X.Scripted(script, mode, clock)
+    if mode == 'u':
+        p.encoding = UENC[0]
+    return p
+
+
 def real_compile(p, forms):
     try:
         cpl = p.compile_pattern_list(forms)
@@ -79,7 +92,7 @@ def real_compile(p, forms):
 def run_stream(mode, ic, arg, stream_chunks, api):
     """one expect-family call on a fresh scripted spawn; -> canonical outcome"""
     clock = X.FakeTime()
-    p = X.Scripted([['d', c] for c in stream_chunks] + [['T']], mode, clock)
+    p = scripted([['d', c] for c in stream_chunks] + [['T']], mode, clock)
     p.ignorecase = ic
     try:
         if api == 'expect':
@@ -124,7 +137,8 @@ def run(ctx):
                 fl = rng.randrange(0, 100)
             o, t = make_form(k, text, fl, mode)
             forms.append(o); toks.append(t)
-        p = X.Scripted([['d', 'zzz']], mode, X.FakeTime())
+        UENC[0] = rng.choice(UENCS)
+        p = scripted([['d', 'zzz']], mode, X.FakeTime())
         p.ignorecase = ic
         if kind == 'r':
             r = real_compile(p, forms)
@@ -138,7 +152,7 @@ def run(ctx):
                 r = 'accepted'
         lines.append('FM %s %d %s %s' % (mode, 1 if ic else 0, kind, ' '.join(toks)))
         reals.append(r)
-        descs.append((mode, ic, kind, toks))
+        descs.append((mode, ic, kind, toks, UENC[0]))
         sigs.add((mode, ic, kind, tuple(t.split('=')[0] for t in toks), r == 'TypeError'))
     try:
         mouts = common.run_model(lines)
@@ -151,17 +165,18 @@ def run(ctx):
         if not agree:
             kinds = '+'.join(sorted(set(t.split('=')[0] for t in d[3])))
             if 'O' in kinds and r != 'TypeError':
-                common.report(ctx, 'forms/other-accepted/' + d[0], 'an object that is not a pattern was accepted: %s -> %s' % (l, r), dict(line=l, real=r, model=mo))
+                common.report(ctx, 'forms/other-accepted/' + d[0], 'an object that is not a pattern was accepted: %s -> %s' % (l, r), dict(line=l, real=r, model=mo, object_encoding=d[4]))
             elif r == 'TypeError' or mo == 'TypeError':
-                common.report(ctx, 'forms/acceptance/%s/%s' % (d[0], kinds), '%s: real %s, model %s' % (l, r, mo), dict(line=l, real=r, model=mo))
+                common.report(ctx, 'forms/acceptance/%s/%s' % (d[0], kinds), '%s: real %s, model %s' % (l, r, mo), dict(line=l, real=r, model=mo, object_encoding=d[4]))
             else:
                 common.report(ctx, 'forms/compiled/%s/%s' % (d[0], kinds),
-                              'compile_pattern_list gives %s; every accepted form must give %s (%s)' % (r, mo, l), dict(line=l, real=r, model=mo))
+                              'compile_pattern_list gives %s; every accepted form must give %s (%s)' % (r, mo, l), dict(line=l, real=r, model=mo, object_encoding=d[4]))
             break
     # (2) metamorphic oracle: the same pattern in every accepted form selects the same occurrence
     n2 = 1500 if ctx.quick() else 20000
     for it in range(n2):
         mode = rng.choice('bu')
+        UENC[0] = rng.choice(UENCS)
         ic = rng.random() < 0.4
         a = rand_ast(rng, rng.choice([1, 2, 2, 3]), 'abAB\n')
         src = X.render(a, 'u')
@@ -227,7 +242,7 @@ def run(ctx):
     n4 = 0
     for mode in 'bu':
         for second in ('expect-ic', 'expect_exact', 'rejected'):
-            sp = X.Scripted([['d', 'xx password: yy PASSWORD: zz']], mode, X.FakeTime())
+            sp = scripted([['d', 'xx password: yy PASSWORD: zz']], mode, X.FakeTime())
             lst = [X.conv('PASSWORD: ', mode), X.conv('nomatch', mode)] + ([5] if second == 'rejected' else [])
             written = list(lst)
             saved_t = X.pexpect_expect.time
@@ -293,7 +308,8 @@ def replay(ctx, path):
                 forms.append(make_form(parts[0], dec(parts[2]), parts[1], mode)[0])
             else:
                 forms.append(make_form(parts[0], '', 'n', mode)[0])
-        p = X.Scripted([['d', 'zzz']], mode, X.FakeTime())
+        UENC[0] = d.get('object_encoding', 'utf-8')
+        p = scripted([['d', 'zzz']], mode, X.FakeTime())
         p.ignorecase = ic
         real = real_compile(p, forms) if kind == 'r' else ('TypeError' if run_stream(mode, ic, forms, ['zzz'], 'expect_exact')[0][0] == 'TypeError' else 'accepted')
         mo = common.run_model([line])[0]
